@@ -4,6 +4,7 @@ import (
 	"context"
 	"fmt"
 	"strings"
+	"sync/atomic"
 	"time"
 
 	"verif/fw"
@@ -166,5 +167,54 @@ func identicalRepinCase(c *fw.Ctx, idx int) {
 	finalPinned := steps[n-1].want
 	if !ok || (finalPinned && !strings.HasPrefix(last, "track")) || (!finalPinned && !strings.HasPrefix(last, "untrack")) {
 		c.Violation("C02/identical-repin/tracker-not-told-about-a-change", fmt.Sprintf("pin / unpin / pin of the same record (%d steps, batching %s): the tracker was told %v", n, mode, calls), nil)
+	}
+}
+
+// sizeFaultQuiesceCase: a batch whose size-triggered commit fails and which
+// is then left alone (no further operations) is still due at its age limit.
+// Exactly max_batch_size pins are accepted while datastore writes fail; the
+// datastore recovers; nothing else is submitted. Everything accepted must be
+// in the state within W = max(5 s, 30 x max_batch_age).
+func sizeFaultQuiesceCase(c *fw.Ctx, idx int) {
+	ctx := context.Background()
+	r := c.Rand("sizefault")
+	size := r.Range(2, 6)
+	age := time.Duration(r.Range(150, 300)) * time.Millisecond
+	rep, err := newReplica(ctx, r.Intn(20), func(cfg *crdt.Config) {
+		cfg.Batching.MaxBatchSize = size
+		cfg.Batching.MaxBatchAge = age
+		cfg.Batching.MaxQueueSize = 50000
+	})
+	if err != nil {
+		c.Inconclusive("replica: " + err.Error())
+		return
+	}
+	defer rep.close()
+	atomic.StoreInt32(&rep.failing, 1)
+	want := map[int]string{}
+	for k := 0; k < size; k++ {
+		ci := k % nCids
+		vseq := fmt.Sprintf("s%d", k)
+		if err := rep.cons.LogPin(ctx, mkPin(ci, vseq, r)); err != nil {
+			c.Inconclusive("submit: " + err.Error())
+			return
+		}
+		want[ci] = vseq
+	}
+	// the size-triggered commit happens (and fails) now; then the datastore recovers
+	time.Sleep(age / 3)
+	atomic.StoreInt32(&rep.failing, 0)
+	W := 5 * time.Second
+	if 30*age > W {
+		W = 30 * age
+	}
+	ok := waitUntil(W, func() bool {
+		got, err := rep.content(ctx)
+		return err == nil && fmtState(got) == fmtState(want)
+	})
+	c.Eval(fmt.Sprintf("size-fault-quiesce/size=%d", size))
+	if !ok {
+		got, _ := rep.content(ctx)
+		c.Violation("C02/size-fault-quiesce/accepted-operations-never-committed", fmt.Sprintf("%d pins were accepted (max_batch_size %d, max_batch_age %s) while the size-triggered commit failed; the datastore recovered, nothing else was submitted, and %s later the state is [%s], expected [%s]", size, size, age, W, fmtState(got), fmtState(want)), nil)
 	}
 }
